@@ -244,39 +244,39 @@ def getDesc (r : XReader) (idx : Nat) : Except Status XDesc :=
     | .ok _ => .error errInternal
     | .error e => .error e
 
-/-- `sqfs_xattr_reader_read` (xattr_reader.c:303-388): one key/value pair at flat position `pos`; result: the full
-key (prefix included), the value, and the position of the next pair -/
-def readPair (r : XReader) (pos : Nat) : Except Status ((Bytes × Bytes) × Nat) :=
-  match readFields [2, 2] (r.kv.drop pos) with                             -- read_key_hdr :196-214
-  | .ok ([typ, ksz], _) =>
+/-- `sqfs_xattr_reader_read` (xattr_reader.c:303-388): one key/value pair with the key/value reader standing at the
+head of `cur`; result: the full key (prefix included), the value, and the stream behind the pair.  An out-of-line value
+is fetched by a seek into `r.kv` and a seek back (:244, :362). -/
+def readPair (r : XReader) (cur : Bytes) : Except Status ((Bytes × Bytes) × Bytes) :=
+  match readFields [2, 2] cur with                                         -- read_key_hdr :196-214
+  | .ok ([typ, ksz], c1) =>
     match prefixOf (typ % (xattrPrefixMask + 1)) with                      -- type & SQFS_XATTR_PREFIX_MASK
     | none => .error errUnsupported
     | some pfx =>
-      match take? ksz (r.kv.drop (pos + 4)) with                           -- :333
-      | .ok (k, _) =>
-        let vpos := pos + 4 + ksz
-        match readFields [4] (r.kv.drop vpos) with                         -- read_value_hdr :224
-        | .ok ([vsz], _) =>
+      match take? ksz c1 with                                              -- :333
+      | .ok (k, c2) =>
+        match readFields [4] c2 with                                       -- read_value_hdr :224
+        | .ok ([vsz], c3) =>
           if (typ / xattrFlagOol) % 2 = 1 then                             -- key->type & SQFS_XATTR_FLAG_OOL
-            match readFields [8] (r.kv.drop (vpos + 4)) with               -- :229
-            | .ok ([ref], _) =>
+            match readFields [8] c3 with                                   -- :229
+            | .ok ([ref], c4) =>
               if ref % 65536 ≥ metaBlockSize then .error errOutOfBounds    -- :237-240
               else
                 match r.posOf ref with                                     -- :244 seek
                 | none => .error errOutOfBounds
                 | some p =>
                   match readFields [4] (r.kv.drop p) with                  -- :248
-                  | .ok ([osz], _) =>
-                    match take? osz (r.kv.drop (p + 4)) with               -- :357
-                    | .ok (v, _) => .ok ((pfx ++ k, v), vpos + 12)         -- :362 seek back
+                  | .ok ([osz], c5) =>
+                    match take? osz c5 with                                -- :357
+                    | .ok (v, _) => .ok ((pfx ++ k, v), c4)                -- :362 seek back
                     | .error e => .error e
                   | .ok _ => .error errInternal
                   | .error e => .error e
             | .ok _ => .error errInternal
             | .error e => .error e
           else
-            match take? vsz (r.kv.drop (vpos + 4)) with
-            | .ok (v, _) => .ok ((pfx ++ k, v), vpos + 4 + vsz)
+            match take? vsz c3 with
+            | .ok (v, c4) => .ok ((pfx ++ k, v), c4)
             | .error e => .error e
         | .ok _ => .error errInternal
         | .error e => .error e
@@ -284,12 +284,12 @@ def readPair (r : XReader) (pos : Nat) : Except Status ((Bytes × Bytes) × Nat)
   | .ok _ => .error errInternal
   | .error e => .error e
 
-def readPairs (r : XReader) : Nat → Nat → Except Status (List (Bytes × Bytes))
+def readPairs (r : XReader) : Nat → Bytes → Except Status (List (Bytes × Bytes))
   | 0, _ => .ok []
-  | n + 1, pos =>
-    match readPair r pos with
-    | .ok (kv, pos') =>
-      match readPairs r n pos' with
+  | n + 1, cur =>
+    match readPair r cur with
+    | .ok (kv, cur') =>
+      match readPairs r n cur' with
       | .ok l => .ok (kv :: l)
       | .error e => .error e
     | .error e => .error e
@@ -303,7 +303,7 @@ def readSet (r : XReader) (idx : Nat) : Except Status (List (Bytes × Bytes)) :=
     | .ok d =>
       match r.posOf d.ref with                                             -- seek_kv
       | none => .error errOutOfBounds
-      | some p => readPairs r d.count p
+      | some p => readPairs r d.count (r.kv.drop p)
 
 /-- what index `j` must read back as: the pairs of block `j` with the interned strings put back -/
 def XWriter.setOf (w : XWriter) (j : Nat) : List (Bytes × Bytes) :=
